@@ -11,7 +11,7 @@ import sympy as sp
 from . import dims
 from .dims import I, J, L, M, N, ONE, T, TH
 
-mpmath.mp.dps = 40
+mpmath.mp.dps = 80
 
 _PI = sp.pi
 
@@ -115,7 +115,7 @@ def raw_to_si(raw: Any, dim: dims.DimVec) -> mpmath.mpc:
 
 
 def mpc(x: Any) -> mpmath.mpc:
-    v = sp.N(x, 40)
+    v = sp.N(x, 80)
     if v.has(sp.nan):
         return mpmath.mpc("nan")
     re_, im_ = v.as_real_imag()
@@ -127,7 +127,7 @@ def _mpf(x: Any) -> mpmath.mpf:
         return mpmath.inf
     if x == -sp.oo:
         return -mpmath.inf
-    return mpmath.mpf(str(sp.N(x, 40)))
+    return mpmath.mpf(str(sp.N(x, 80)))
 
 
 def close(a: Any, b: Any, rel: float = 1e-12, abs_: float = 0.0) -> bool:
